@@ -33,6 +33,17 @@ under test, the wrapper's `reset` / `step`, `PettingZooVecEnv.step` (de-batching
 `process_transition` and the command dispatch + "reset" / "step" branches of `_async_worker` into
 lean/Gen/VecEnvGen.lean; Proofs/VecEnvGenEq.lean proves the generated definitions equal to Model/VecEnv.lean and
 Props/C12.lean restates the theorems over them (`C12_source_translation_*`).
+A second translator, `py2lean_vecrecv.py`, translates the shared-memory layout and the parent's receive side
+(`_create_memory_array`, `create_shared_memory`, `write_to_shared_memory` and the worker's calls of it,
+`Observations.__init__ / __getitem__`, `step_wait`, `reset_wait`, `_add_info`) into lean/Gen/VecRecvGen.lean;
+Proofs/VecRecvGenEq.lean proves the generated slices / buffer lengths / reader rows equal to Model/VecEnv.lean §1b
+(`C12_source_translation_recv_*`).  Two direct suites (no worker processes) drive the real functions:
+`shm-direct` (create_shared_memory / write_to_shared_memory / Observations over scalar, vector, image, Dict and Tuple
+spaces with different shapes and dtypes per agent, 1-5 envs, writes of shuffled envs / agent subsets in several rounds;
+after EVERY write every cell of every raw buffer is compared with the model's `offsetOf size env j = env*size + j`, then
+every `Observations[agent][member][env]` with what env wrote, shape `(n, *viewShape)`), and `add-info-direct`
+(`_add_info` histories with nested, sparse, out-of-order infos of int / float / bool / np.float32 / ndarray / None / str
+values: env i's value under index i, `_key` masks true exactly for the reporting envs, nothing leaks to other indices).
 Every vec env is closed in `finally`; no worker outlives a case.  The public blocking calls are used exactly
 as a caller uses them (no timeouts: a timeout makes the parent poll every pipe in index order first, which
 hides the order in which the workers really finish); a SIGALRM wall-clock guard per case bounds a hang.
@@ -738,6 +749,334 @@ def report_wrapper(chk: Check, case, ops, res):
 
 
 # ----------------------------------------------------------------------------- source translation
+# ----------------------------------------------------------------------------- direct shared-memory / info suites
+# (no worker processes: the real create_shared_memory / write_to_shared_memory / Observations / _add_info are called
+# directly; the oracle is the model's offset function `VecEnv.offsetOf size i j = i * size + j` with
+# `size = shapeSize shape`, `bufLen n shape = n * size`, `viewShape () = (1,)` — Model/VecEnv.lean §1b, which
+# Proofs/VecRecvGenEq.lean proves equal to the offsets of the translated source)
+SHM_DTYPES = ["float32", "float64", "int32", "int64", "uint8", "int16"]
+
+
+def gen_shm_space(rng):
+    def shape():
+        r = rng.random()
+        if r < 0.2:
+            return []
+        if r < 0.6:
+            return [rng.randint(1, 6)]
+        if r < 0.85:
+            return [rng.randint(1, 3), rng.randint(1, 4), rng.randint(1, 3)]
+        return [rng.randint(1, 3), rng.randint(1, 3)]
+    kind = rng.choice(["box", "box", "box", "dict", "tuple"])
+    n = 1 if kind == "box" else rng.randint(1, 3)
+    return {"kind": kind, "parts": [[shape(), rng.choice(SHM_DTYPES)] for _ in range(n)]}
+
+
+def gen_shm_case(rng) -> dict:
+    n = rng.randint(1, 5)
+    agents = rng.randint(1, 3)
+    sp = [gen_shm_space(rng) for _ in range(agents)]
+    if rng.random() < 0.3:
+        sp = [sp[0]] * agents
+    writes = []
+    for rnd in range(rng.randint(1, 3)):
+        envs = [i for i in range(n) if rng.random() < 0.85]
+        rng.shuffle(envs)
+        for i in envs:
+            ags = [a for a in range(agents) if rng.random() < 0.9] or [0]
+            rng.shuffle(ags)
+            writes.append([rnd, i, ags])
+    return {"n_envs": n, "spaces": sp, "writes": writes}
+
+
+def shm_value(rnd, i, a, k, j, dtype):
+    v = ((((rnd * 5 + i) * 3 + a) * 3 + k) * 97 + j + 1)
+    return v % 251 if dtype == "uint8" else v % 32000
+
+
+def shm_member_obs(rnd, i, a, k, shape, dtype):
+    size = int(np.prod(shape)) if shape else 1
+    flat = np.array([shm_value(rnd, i, a, k, j, dtype) for j in range(size)], dtype=dtype)
+    return flat.reshape(shape) if shape else flat.reshape(())
+
+
+def eval_shm(case) -> dict:
+    """runs the real functions; returns {"problems": [...], "cells": number of compared cells}"""
+    import multiprocessing as mp
+    from gymnasium import spaces
+    from agilerl.vector import pz_async_vec_env as M
+    n, specs = case["n_envs"], case["spaces"]
+    names = [f"agent_{a}" for a in range(len(specs))]
+
+    def box(shape, dtype):
+        lo, hi = (0, 255) if dtype == "uint8" else (-32000, 32000)
+        return spaces.Box(low=lo, high=hi, shape=tuple(shape), dtype=np.dtype(dtype).type)
+
+    def space(spec):
+        parts = [box(sh, dt) for sh, dt in spec["parts"]]
+        if spec["kind"] == "dict":
+            return spaces.Dict({f"k{k}": p for k, p in enumerate(parts)})
+        if spec["kind"] == "tuple":
+            return spaces.Tuple(tuple(parts))
+        return parts[0]
+
+    obs_spaces = {nm: space(sp) for nm, sp in zip(names, specs)}
+    problems, cells = [], 0
+    shm = M.create_shared_memory(num_envs=n, obs_spaces=obs_spaces, context=mp.get_context())
+    view = M.Observations(shared_memory=shm, obs_spaces=obs_spaces, num_envs=n)
+
+    def raw(a, k):
+        spec, buf = specs[a], shm[names[a]]
+        if spec["kind"] == "dict":
+            buf = buf[f"k{k}"]
+        elif spec["kind"] == "tuple":
+            buf = buf[k]
+        return np.frombuffer(buf.get_obj(), dtype=spec["parts"][k][1])
+
+    def size_of(a, k):
+        sh = specs[a]["parts"][k][0]
+        return int(np.prod(sh)) if sh else 1
+
+    # model of the memory: last writer of (agent, member, env)
+    last = {}
+    for a, spec in enumerate(specs):
+        for k in range(len(spec["parts"])):
+            if len(raw(a, k)) != n * size_of(a, k):
+                problems.append(f"buffer of agent {a} member {k} has {len(raw(a, k))} cells, model bufLen = "
+                                f"{n} * {size_of(a, k)}")
+    for rnd, i, ags in case["writes"]:
+        obs = {}
+        for a in ags:
+            spec = specs[a]
+            members = [shm_member_obs(rnd, i, a, k, sh, dt) for k, (sh, dt) in enumerate(spec["parts"])]
+            if spec["kind"] == "dict":
+                obs[names[a]] = {f"k{k}": m for k, m in enumerate(members)}
+            elif spec["kind"] == "tuple":
+                obs[names[a]] = tuple(members)
+            else:
+                obs[names[a]] = members[0]
+            for k in range(len(members)):
+                last[(a, k, i)] = rnd
+        try:
+            M.write_to_shared_memory(i, obs, shm, obs_spaces)
+        except Exception as e:                                        # noqa: BLE001
+            problems.append(f"write_to_shared_memory(index={i}) raised {type(e).__name__}: {e}")
+            break
+        # every cell of every buffer against the model's offset function, after every write
+        for a, spec in enumerate(specs):
+            for k, (sh, dt) in enumerate(spec["parts"]):
+                size, buf = size_of(a, k), raw(a, k)
+                for e in range(n):
+                    r = last.get((a, k, e))
+                    for j in range(size):
+                        want = 0 if r is None else shm_value(r, e, a, k, j, dt)
+                        cells += 1
+                        off = e * size + j                              # VecEnv.offsetOf size e j
+                        if off >= len(buf) or buf[off] != want:
+                            if len(problems) < 6:
+                                got = buf[off] if off < len(buf) else "out of range"
+                                problems.append(
+                                    f"after write (round {rnd}, env {i}, agents {ags}): cell {off} of agent {a} member {k} "
+                                    f"holds {got}, the model says element {j} of env {e}'s "
+                                    f"{'round-' + str(r) + ' observation' if r is not None else 'initial zero'} = {want}")
+    # the reader: Observations[agent][member][env] is what env wrote, reshaped to viewShape
+    if not problems:
+        for a, spec in enumerate(specs):
+            try:
+                got = view[names[a]]
+            except Exception as e:                                    # noqa: BLE001
+                problems.append(f"Observations[{names[a]}] raised {type(e).__name__}: {e}")
+                continue
+            for k, (sh, dt) in enumerate(spec["parts"]):
+                arr = got[f"k{k}"] if spec["kind"] == "dict" else got[k] if spec["kind"] == "tuple" else got
+                vshape = tuple(sh) if sh else ((1,) if spec["kind"] != "tuple" else ())
+                if tuple(arr.shape) != (n,) + vshape:
+                    problems.append(f"Observations[{a}] member {k} has shape {tuple(arr.shape)}, model (n, *viewShape) = {(n,) + vshape}")
+                    continue
+                for e in range(n):
+                    r = last.get((a, k, e))
+                    want = np.zeros(vshape, dtype=dt) if r is None else shm_member_obs(r, e, a, k, sh, dt).reshape(vshape)
+                    cells += int(want.size)
+                    if not np.array_equal(arr[e], want):
+                        problems.append(f"Observations[{a}] member {k} row {e} = {arr[e].tolist()} but env {e} wrote {want.tolist()}")
+    return {"problems": problems[:6], "cells": cells}
+
+
+INFO_KEYS = {"i": "int", "f": "float", "b": "bool", "n32": "np32", "arr": "ndarray", "none": "none", "s": "str"}
+
+
+def gen_info_case(rng) -> dict:
+    n = rng.randint(1, 5)
+    agents = rng.randint(1, 3)
+    envs = [i for i in range(n) if rng.random() < 0.85]
+    if rng.random() < 0.5:
+        rng.shuffle(envs)
+
+    def leafs(depth):
+        d = {}
+        for key in INFO_KEYS:
+            if rng.random() < 0.45:
+                d[key] = rng.randint(1, 99)
+        if depth < 2 and rng.random() < 0.4:
+            d["sub"] = leafs(depth + 1)
+        return d
+    hist = [[i, {f"agent_{a}": leafs(0) for a in range(agents) if rng.random() < 0.9}] for i in envs]
+    return {"n_envs": n, "history": hist}
+
+
+def info_value(key, seed):
+    t = INFO_KEYS[key]
+    if t == "int":
+        return int(seed)
+    if t == "float":
+        return seed / 4.0
+    if t == "bool":
+        return True                      # a reported False equals the fill value: the mask tells them apart
+    if t == "np32":
+        return np.float32(seed / 8.0)
+    if t == "ndarray":
+        return np.array([[seed, seed + 1, seed + 2]], dtype=np.int32)
+    if t == "none":
+        return None
+    return f"s{seed}"
+
+
+def materialise_info(d):
+    return {k: (materialise_info(v) if isinstance(v, dict) else info_value(k, v)) for k, v in d.items()}
+
+
+def eval_infos(case) -> dict:
+    from agilerl.vector.pz_async_vec_env import AsyncPettingZooVecEnv
+
+    class Stub:
+        num_envs = case["n_envs"]
+        _add_info = AsyncPettingZooVecEnv._add_info
+    stub, n = Stub(), case["n_envs"]
+    problems, checks = [], 0
+    vec = {}
+    try:
+        for i, info in case["history"]:
+            vec = stub._add_info(vec, materialise_info(info), i)
+    except Exception as e:                                            # noqa: BLE001
+        return {"problems": [f"_add_info raised {type(e).__name__}: {e}"], "checks": 0}
+
+    def reported(path):
+        """env -> seed of the leaf / True for a sub-dict at `path`"""
+        out = {}
+        for i, info in case["history"]:
+            d = info
+            for p in path:
+                d = d.get(p) if isinstance(d, dict) else None
+                if d is None:
+                    break
+            if d is not None:
+                out[i] = d
+        return out
+
+    def walk(vd, path):
+        nonlocal checks
+        for key, val in vd.items():
+            if key.startswith("_"):
+                continue
+            rep = reported(path + [key])
+            mask = vd.get("_" + key)
+            if mask is None or len(mask) != n:
+                problems.append(f"no mask `_{key}` of length {n} under {path}")
+                continue
+            for e in range(n):
+                checks += 1
+                if bool(mask[e]) != (e in rep):
+                    problems.append(f"mask {'/'.join(path + ['_' + key])}[{e}] = {bool(mask[e])} but env {e} "
+                                    f"{'reported' if e in rep else 'did not report'} this key")
+            if isinstance(val, dict):
+                walk(val, path + [key])
+                continue
+            if len(val) != n:
+                problems.append(f"array {'/'.join(path + [key])} has length {len(val)}, num_envs = {n}")
+                continue
+            for e in range(n):
+                checks += 1
+                if e in rep:
+                    want = info_value(key, rep[e])
+                    ok = (val[e] is None) if want is None or (isinstance(want, float) and np.isnan(want)) else bool(np.array_equal(val[e], want))
+                    if want is None:
+                        ok = val[e] is None or (isinstance(val[e], (float, np.floating)) and np.isnan(val[e]))
+                    if not ok:
+                        problems.append(f"infos {'/'.join(path + [key])}[{e}] = {val[e]!r} but env {e} reported {want!r}")
+                else:
+                    fill = val[e]
+                    blank = fill is None or (isinstance(fill, (float, np.floating)) and (np.isnan(fill) or fill == 0)) \
+                        or (isinstance(fill, np.ndarray) and not fill.any()) or (not isinstance(fill, (np.ndarray, str)) and fill == 0)
+                    if not blank:
+                        problems.append(f"infos {'/'.join(path + [key])}[{e}] = {fill!r} but env {e} reported nothing (another env's value leaked)")
+        # every reported key must be present
+        keys_here = set()
+        for i, info in case["history"]:
+            d = info
+            for p in path:
+                d = d.get(p, {}) if isinstance(d, dict) else {}
+            if isinstance(d, dict):
+                keys_here |= set(d)
+        for k in keys_here:
+            if k not in vd:
+                problems.append(f"key {'/'.join(path + [k])} reported by an env is missing from the vectorised infos")
+    walk(vec, [])
+    return {"problems": problems[:6], "checks": checks}
+
+
+def run_direct_suites(chk: Check, corpus) -> None:
+    rng = chk.rng
+    quick = chk.tier == "quick"
+    cases = [(c, name) for s, c, name in corpus if s == "shm"]
+    cases += [(gen_shm_case(rng), None) for _ in range(60 if quick else 600)]
+    bad = 0
+    for case, origin in cases:
+        res = eval_shm(case)
+        kinds = sorted({sp["kind"] for sp in case["spaces"]})
+        chk.case(["shm", case], nontrivial=len(case["writes"]) > 1 and case["n_envs"] > 1,
+                 sample={"suite": "shm", "n_envs": case["n_envs"], "spaces": case["spaces"][:2], "writes": len(case["writes"])},
+                 tags=["suite-shm-direct", f"envs-{case['n_envs']}"] + [f"shm-{k}" for k in kinds]
+                 + (["shm-scalar"] if any(not p[0] for sp in case["spaces"] for p in sp["parts"]) else []))
+        if res["problems"]:
+            bad += 1
+            if bad <= 2:
+                small = ddmin(case["writes"], lambda w: bool(eval_shm({**case, "writes": w})["problems"])) \
+                    if len(case["writes"]) > 1 else case["writes"]
+                c2 = {**case, "writes": small}
+                r2 = eval_shm(c2)
+                if not r2["problems"]:
+                    c2, r2 = case, res
+                chk.violation("shared memory: " + r2["problems"][0],
+                              {"suite": "shm", "case": c2, "oracle_problems": r2["problems"],
+                               "correspondence": "real create_shared_memory / write_to_shared_memory / Observations vs "
+                                                 "VecEnv.offsetOf (Model/VecEnv.lean §1b, Proofs/VecRecvGenEq.lean)"})
+    chk.suite("shm-direct", len(cases), 0)
+    icases = [(c, name) for s, c, name in corpus if s == "infos"]
+    icases += [(gen_info_case(rng), None) for _ in range(80 if quick else 800)]
+    ibad = 0
+    for case, origin in icases:
+        res = eval_infos(case)
+        chk.case(["infos", case], nontrivial=len(case["history"]) > 1,
+                 sample={"suite": "infos", "n_envs": case["n_envs"], "history": case["history"][:2]},
+                 tags=["suite-add-info", f"envs-{case['n_envs']}"]
+                 + (["infos-nested"] if any("sub" in d for _, inf in case["history"] for d in inf.values()) else []))
+        if res["problems"]:
+            ibad += 1
+            if ibad <= 2:
+                small = ddmin(case["history"], lambda h: bool(eval_infos({**case, "history": h})["problems"])) \
+                    if len(case["history"]) > 1 else case["history"]
+                c2 = {**case, "history": small}
+                r2 = eval_infos(c2)
+                if not r2["problems"]:
+                    c2, r2 = case, res
+                chk.violation("_add_info: " + r2["problems"][0],
+                              {"suite": "infos", "case": c2, "oracle_problems": r2["problems"],
+                               "correspondence": "real AsyncPettingZooVecEnv._add_info vs the statement: env i's info "
+                                                 "lands under index i, `_key` masks mark exactly the reporting envs"})
+    chk.suite("add-info-direct", len(icases), 0)
+
+
+
 REL_SOURCES = ("agilerl/wrappers/pettingzoo_wrappers.py", "agilerl/vector/pz_vec_env.py",
                "agilerl/vector/pz_async_vec_env.py")
 REL_SOURCE = "agilerl/{wrappers/pettingzoo_wrappers,vector/pz_vec_env,vector/pz_async_vec_env}.py"     # display only
@@ -749,10 +1088,20 @@ def pre_gate(chk: Check) -> None:
     (Props/C12.lean)."""
     import common
     import py2lean_vecenv
+    import py2lean_vecrecv
     assert tuple(py2lean_vecenv.REL_SOURCES) == REL_SOURCES
+    # Props.C12 imports both generated files: bring the second one up to date with the tree under test before the
+    # first gate builds Props.C12 (a rejected source is reported by its own gate below)
+    try:
+        py2lean_vecrecv.write_if_changed(py2lean_vecrecv.translate(REPO)[0], common.LEAN_DIR / "Gen" / "VecRecvGen.lean")
+    except py2lean_vecrecv.Unsupported:
+        pass
     common.translation_gate(chk, py2lean_vecenv, "Gen/VecEnvGen.lean",
                             ["Gen.VecEnvGen", "Proofs.VecEnvGenEq", "Props.C12"],
                             "auto-reset wrapper, action de-batching, seeding, worker step / reset with placeholders")
+    common.translation_gate(chk, py2lean_vecrecv, "Gen/VecRecvGen.lean",
+                            ["Gen.VecRecvGen", "Proofs.VecRecvGenEq", "Props.C12"],
+                            "shared-memory layout (create / write / Observations), step_wait / reset_wait gathering, _add_info")
 
 
 # ----------------------------------------------------------------------------- check
@@ -824,6 +1173,7 @@ def run(chk: Check) -> None:
                 report_wrapper(chk, case, case["ops"], res)
             wviol += 1
     chk.suite("wrapper-ops", len(wcases), wdiff)
+    run_direct_suites(chk, corpus)
     if wviol > 2:
         chk.notes.append(f"wrapper suite: {wviol} failing cases, first 2 reported")
     # ---- vec suite
@@ -1090,6 +1440,14 @@ def replay(chk: Check, path: str) -> int:
     c = json.loads(open(path).read())
     c = c.get("replay", c)
     case, suite = c["case"], c.get("suite", "vec")
+    if suite in ("shm", "infos"):
+        res = eval_shm(case) if suite == "shm" else eval_infos(case)
+        print(json.dumps({"suite": suite, "oracle_problems": res["problems"]}, indent=1))
+        if res["problems"]:
+            print(f"VIOLATION property=C12 replay={path}")
+            print(f"  -> {res['problems'][0]}"[:600])
+            return 1
+        return 0
     res = eval_wrapper(chk, case, case["ops"]) if suite == "wrapper" else eval_case(chk, case, case["ops"])
     print(json.dumps({"suite": suite, "diff_at": res["diff"], "oracle_problems": res["problems"][:6],
                       "impl": res["impl"][-6:], "model": res["model"][-6:], "notes": res["notes"]}, indent=1))
